@@ -21,20 +21,28 @@ from .astcopy import fast_copy
 
 
 class Path:
-    __slots__ = ('conds', 'env', 'exit', 'value', 'events', 'node', 'passed')
+    __slots__ = ('conds', 'env', 'exit', 'value', 'events', 'node', 'passed', 'snaps')
 
-    def __init__(self, conds=None, env=None, events=None, passed=None):
+    def __init__(self, conds=None, env=None, events=None, passed=None, snaps=None):
         self.conds = list(conds or [])       # [(test expr (substituted), polarity, original test node)]
         self.env = dict(env or {})
         self.events = list(events or [])     # [(stmt, env snapshot)] for statements with effects, in order
         self.passed = list(passed or [])     # every statement the path executes (heads of compound statements included)
+        self.snaps = list(snaps or [])       # the environment in force when the statement of the same index in `passed` starts
         self.exit = None                     # 'return' | 'raise' | 'fall' | 'continue' | 'break'
         self.value = None                    # substituted return value / raised expression
         self.node = None                     # the Return / Raise / Continue / Break statement
 
     def fork(self):
-        p = Path(self.conds, self.env, self.events, self.passed)
+        p = Path(self.conds, self.env, self.events, self.passed, self.snaps)
         return p
+
+    def env_at(self, stmt):
+        """bindings of the plain locals in force when `stmt` starts on this path (None if the path does not pass it)"""
+        for k in range(len(self.passed) - 1, -1, -1):
+            if self.passed[k] is stmt:
+                return self.snaps[k] if k < len(self.snaps) else None
+        return None
 
     def decisions(self):
         """the branch decisions proper: [(test, polarity)] without loop / handler markers and without what assertions
@@ -264,6 +272,7 @@ def paths(body, env=None, limit=400):
         st, rest = stmts[0], stmts[1:]
         tag = f'L{getattr(st, "lineno", 0)}'
         p.passed.append(st)
+        p.snaps.append(dict(p.env))
         if isinstance(st, ast.If):
             for q_, v in _decide(st.test, p, st, budget):
                 for r in run(st.body if v else st.orelse, q_):
@@ -320,7 +329,7 @@ def paths(body, env=None, limit=400):
         if isinstance(st, (ast.For, ast.AsyncFor, ast.While)):
             p.events.append((st, dict(p.env)))
             names = _stores([st])
-            inner = Path(p.conds + [(st, True, st)], _havoc(p.env, names, tag), p.events, p.passed)
+            inner = Path(p.conds + [(st, True, st)], _havoc(p.env, names, tag), p.events, p.passed, p.snaps)
             saved = len(done)
             for r in run(st.body, inner):
                 pass                     # falling off the loop body: back to the head
@@ -354,7 +363,7 @@ def paths(body, env=None, limit=400):
             names = _stores(st.body)
             for h in st.handlers:
                 hp = Path(p.conds + [(h.type if h.type is not None else ast.Name(id='BaseException', ctx=ast.Load()), True, h)],
-                          _havoc(p.env, names, tag), p.events, p.passed)
+                          _havoc(p.env, names, tag), p.events, p.passed, p.snaps)
                 if h.name:
                     hp.env[h.name] = ast.Name(id=f"{h.name}'{tag}", ctx=ast.Load())
                 for r in run(h.body, hp):
